@@ -931,6 +931,13 @@ def run_case(case):
             # row is left): not demanded by the property, counted
             case.note('arbitrary_ids_refused_' + type(exc).__name__)
             case.skip('supplied_ids_not_1_to_N_refused')
+        if o['mask'] == 'starved' and 'array must not contain infs or NaNs' in str(exc):
+            # the starved source has no more usable pixels than free parameters (the class exists for the
+            # npixfit / flags book-keeping): on that under-determined problem the trusted optimiser may run away
+            # until the Jacobian is non-finite and scipy's SVD refuses it (seen once in 14 249 thorough cases).
+            # An optimiser failure on an under-determined fit, not a book-keeping matter: counted, not judged.
+            case.note('starved_fit_optimizer_diverged_nonfinite_jacobian')
+            case.skip('starved_fit_optimizer_diverged')
         raise
     except NonFiniteValueError as exc:
         case.check(False, 'nonfinite_pixels_are_automatically_masked',
@@ -1208,6 +1215,16 @@ def run_case(case):
                             f'recovery_shape_{tag}[{o["kind"]}]', dv, dict(name=name, dev=float(dv))))
         for g, lst in pend.items():
             if not all(okk for (_, _, okk, _, _, _) in lst):
+                rows_g0 = [k for k in range(n) if int(fitgroup[R[k]]) == g]
+                if o.get('mag_kind', 'plain') != 'plain' and any(int(flags[k]) & 8 for k in rows_g0):
+                    # the library itself flags the rows (8: 'the fit may not have converged' - the trusted optimiser
+                    # stopped on its evaluation limit) and the image magnitude is far from 1 (seen: Poisson-weighted
+                    # group fit at 4e-17, 'maximum number of function evaluations is exceeded'): the convergence
+                    # speed of scipy's TRF at such magnitudes is not photutils' book-keeping. Undecided, counted per
+                    # magnitude kind; at plain magnitudes a flagged row is still judged with the arbitration below.
+                    undecided.add(g)
+                    case.note('recovery_undecided_library_flagged_nonconvergence[magnitude ' + o['mag_kind'] + ']')
+                    continue
                 # Arbitration: is this the optimiser leaving its basin (not photutils' business) or book-keeping?
                 # Re-fit the group with an independent, straightforward use of the same astropy fitter on
                 # correctly book-kept inputs (own windows, own ordering, same call mode).  Only when that fit
